@@ -44,6 +44,72 @@ def documented_commit_types(ctx: Ctx) -> List[str]:
     return out
 
 
+
+def _alias_tables(ctx: Ctx, init: Func):
+    """The legacy-alias tables of the DBFS store: (function, [(old reference, codec expression, node)], container node,
+    the per-entry registration statement or None, statements that use the entry variables after the loop).
+
+    Two shapes are read, in the constructor or in a module-level function it calls (two levels):
+      * `for (old, codec) in [("dbfs.x", c), ...]: table[Ref(old)] = codec`
+      * `aliases = {"dbfs.x": c, ...}` consumed entry by entry by a loop or a comprehension over `aliases.items()` that
+        stores / builds `Ref(old): codec` (the comprehension being handed to `.update(...)`)."""
+    prog = ctx.prog
+    funcs: List[Func] = [init]
+    for _ in range(2):
+        for g in list(funcs):
+            for n in g.own_nodes():
+                if isinstance(n, ast.Call):
+                    d = prog.dotted(g, n.func)
+                    h = prog.funcs.get(d) if d else None
+                    if h is not None and h.cls is None and h.module is init.module and h not in funcs:
+                        funcs.append(h)
+    out = []
+    for g in funcs:
+        for n in g.own_nodes():
+            if isinstance(n, ast.For) and isinstance(n.iter, (ast.List, ast.Tuple)):
+                pairs = [(const_str(e.elts[0]), e.elts[1], e) for e in n.iter.elts
+                         if isinstance(e, ast.Tuple) and len(e.elts) == 2 and const_str(e.elts[0]) is not None]
+                if not pairs:
+                    continue
+                tv = {x.id for x in ast.walk(n.target) if isinstance(x, ast.Name)}
+                inside = [st for st in ast.walk(ast.Module(body=n.body, type_ignores=[])) if isinstance(st, ast.Assign) and any(isinstance(t, ast.Subscript) for t in st.targets)
+                          and tv <= {x.id for x in ast.walk(st) if isinstance(x, ast.Name)}]
+                after = [st for st in g.own_nodes() if isinstance(st, ast.Assign) and any(isinstance(t, ast.Subscript) for t in st.targets)
+                         and tv & {x.id for x in ast.walk(st) if isinstance(x, ast.Name)} and st.lineno > n.lineno]
+                out.append((g, pairs, n, inside[0] if inside else None, after))
+            elif isinstance(n, ast.Assign) and isinstance(n.value, ast.Dict) and len(n.targets) == 1 and isinstance(n.targets[0], ast.Name) and n.value.keys:
+                ks = [const_str(k) if k is not None else None for k in n.value.keys]
+                if any(k is None for k in ks) or not all(isinstance(v, (ast.Name, ast.Call)) for v in n.value.values):
+                    continue
+                fl = flow_of(prog, g)
+                if not any(_class_of_expr(ctx, g, fl, v) is not None for v in n.value.values):
+                    continue
+                pairs = [(k, v, v) for k, v in zip(ks, n.value.values)]
+                name = n.targets[0].id
+                registered = None
+                for m in g.own_nodes():
+                    gens = []
+                    if isinstance(m, ast.DictComp):
+                        gens = [(m.generators[0], [m.key, m.value], m)] if len(m.generators) == 1 else []
+                    elif isinstance(m, ast.For):
+                        stores = [st for st in ast.walk(ast.Module(body=m.body, type_ignores=[])) if isinstance(st, ast.Assign) and any(isinstance(t, ast.Subscript) for t in st.targets)]
+                        if stores:
+                            t0 = [t for t in stores[0].targets if isinstance(t, ast.Subscript)][0]
+                            gens = [(m, [t0.slice, stores[0].value], stores[0])]
+                    for (gen, (kx, vx), where) in gens:
+                        it = gen.iter
+                        if not (isinstance(it, ast.Call) and isinstance(it.func, ast.Attribute) and it.func.attr == "items"
+                                and isinstance(it.func.value, ast.Name) and it.func.value.id == name):
+                            continue
+                        tg = gen.target
+                        if not (isinstance(tg, (ast.Tuple, ast.List)) and len(tg.elts) == 2 and all(isinstance(x, ast.Name) for x in tg.elts)):
+                            continue
+                        kv, vv = tg.elts[0].id, tg.elts[1].id
+                        if kv in {x.id for x in ast.walk(kx) if isinstance(x, ast.Name)} and isinstance(vx, ast.Name) and vx.id == vv:
+                            registered = where
+                out.append((g, pairs, n, registered, []))
+    return out
+
 def cond_under(ev: Evaluator, f_scope, test: ast.AST, member: EnumMember) -> Optional[bool]:
     """truth of a branch condition when self._commit_type is `member` (None when it does not depend on it / is unknown)"""
     from ..absint import Env
@@ -298,41 +364,30 @@ def run(ctx: Ctx) -> None:
     # ---- R2 aliases -------------------------------------------------------------------------------
     init = cls.methods.get("__init__")
     n2 = 0
-    if init is not None:
-        fl = flow_of(prog, init)
-        for n in init.own_nodes():
-            if isinstance(n, ast.For) and isinstance(n.iter, (ast.List, ast.Tuple)):
-                for elt in n.iter.elts:
-                    if isinstance(elt, ast.Tuple) and len(elt.elts) == 2 and const_str(elt.elts[0]) is not None:
-                        n2 += 1
-                        old = const_str(elt.elts[0])
-                        c = _class_of_expr(ctx, init, fl, elt.elts[1])
-                        new = ref_literal(ctx, c) if c is not None else None
-                        desc = f"legacy alias {old!r} points to the codec of the same kind"
-                        if new is None:
-                            rep.unknown("C19.R2", init.qname, f"cannot resolve the codec behind alias {old!r}", init.loc(elt))
-                        elif old.split(".")[-1] == new.split(".")[-1]:
-                            rep.ok("C19.R2", init.qname, desc + f" ({new})", init.loc(elt))
-                        else:
-                            rep.bad("C19.R2", init.qname, desc, init.loc(elt), [f"{old!r} -> {c.qname} whose reference is {new!r}"], f"alias:{old}",
-                                    what=f"legacy reference {old} is decoded with the {new} codec")
+    tables = _alias_tables(ctx, init) if init is not None else []
+    for (g, pairs, container, registered, after) in tables:
+        fl = flow_of(prog, g)
+        for (old, vexpr, elt) in pairs:
+            n2 += 1
+            c = _class_of_expr(ctx, g, fl, vexpr)
+            new = ref_literal(ctx, c) if c is not None else None
+            desc = f"legacy alias {old!r} points to the codec of the same kind"
+            if new is None:
+                rep.unknown("C19.R2", g.qname, f"cannot resolve the codec behind alias {old!r}", g.loc(elt))
+            elif old.split(".")[-1] == new.split(".")[-1]:
+                rep.ok("C19.R2", g.qname, desc + f" ({new})", g.loc(elt))
+            else:
+                rep.bad("C19.R2", g.qname, desc, g.loc(elt), [f"{old!r} -> {c.qname} whose reference is {new!r}"], f"alias:{old}",
+                        what=f"legacy reference {old} is decoded with the {new} codec")
+        # every alias of the table is registered: the store into the reference table runs once per entry and uses both components
+        desc = f"each of the {len(pairs)} legacy aliases is registered (the table store runs per entry and uses both of its components)"
+        if registered is not None:
+            rep.ok("C19.R2", g.qname, desc, g.loc(registered))
+        else:
+            rep.bad("C19.R2", g.qname, desc, g.loc(container), [f"{g.loc(container)}: nothing registers each entry of the alias table"] + [
+                f"{g.loc(st)}: `{unparse(st, 70)}` runs once, after the loop, with the last alias only" for st in after[:2]] + [
+                "blobs whose metadata names one of the other legacy references fail with PROTOCOL_NOT_FOUND"], "alias-loop", what="only the last legacy alias is registered")
     rep.floor("C19.R2", n2, 3)
-    # every alias of the list is registered: the store into the reference table sits inside the loop and uses the loop's variables
-    if init is not None:
-        for n in init.own_nodes():
-            if isinstance(n, ast.For) and isinstance(n.iter, (ast.List, ast.Tuple)) and any(isinstance(e_, ast.Tuple) and e_.elts and const_str(e_.elts[0]) is not None for e_ in n.iter.elts):
-                tv = {x.id for x in ast.walk(n.target) if isinstance(x, ast.Name)}
-                inside = [st for st in ast.walk(ast.Module(body=n.body, type_ignores=[])) if isinstance(st, ast.Assign) and any(isinstance(t, ast.Subscript) for t in st.targets)
-                          and tv <= {x.id for x in ast.walk(st) if isinstance(x, ast.Name)}]
-                desc = f"each of the {len(n.iter.elts)} legacy aliases is registered (the table store is in the loop body and uses both loop variables)"
-                if inside:
-                    rep.ok("C19.R2", init.qname, desc, init.loc(inside[0]))
-                else:
-                    after = [st for st in init.own_nodes() if isinstance(st, ast.Assign) and any(isinstance(t, ast.Subscript) for t in st.targets)
-                             and tv & {x.id for x in ast.walk(st) if isinstance(x, ast.Name)} and st.lineno > n.lineno]
-                    rep.bad("C19.R2", init.qname, desc, init.loc(n), [f"{init.loc(n)}: the loop body registers nothing"] + [
-                        f"{init.loc(st)}: `{unparse(st, 70)}` runs once, after the loop, with the last alias only" for st in after[:2]] + [
-                        "blobs whose metadata names one of the other legacy references fail with PROTOCOL_NOT_FOUND"], "alias-loop", what="only the last legacy alias is registered")
 
     # ---- R6: the aliases stay registered -------------------------------------------------------------------------
     rep.rule("C19.R6", "legacy aliases are item stores into the registry's reference table from outside the registry class: no registry method "
